@@ -84,6 +84,7 @@ FUNCS = {"float": float, "setattr": _setattr, "str": str, "dict": dict, "os.path
          "itertools.zip_longest": lambda *a, **k: list(itertools.zip_longest(*[_finite(x) for x in a], **k)),
          "pairwise": lambda it: list(itertools.pairwise(_finite(it))), "itertools.pairwise": lambda it: list(itertools.pairwise(_finite(it)))}
 FUNCS["itertools.repeat"] = FUNCS["repeat"]
+FUNCS["chain.from_iterable"] = FUNCS["itertools.chain.from_iterable"] = lambda it: [x for sub in _finite(it) for x in _finite(sub)]
 
 
 def _finite(it):
@@ -598,6 +599,35 @@ class Folder:
                 return not want_all
             finally:
                 self.env = saved
+        if fn == "next" and fn not in self.env and 1 <= len(c.args) <= 2 and not c.keywords and isinstance(c.args[0], ast.GeneratorExp):
+            # next(<generator expression>): only the first element is produced (the source may be endless: itertools.count)
+            ge, saved = c.args[0], dict(self.env)
+
+            class _First(Exception):
+                pass
+
+            def rec1(i):
+                if i == len(ge.generators):
+                    raise _First(self.ev(ge.elt))
+                g = ge.generators[i]
+                src_ = self.ev(g.iter)
+                budget = 10000
+                for item in src_:
+                    budget -= 1
+                    if budget < 0:
+                        raise Unknown("next() over a source that does not end")
+                    self.assign(g.target, item)
+                    if all(self.ev(t) for t in g.ifs):
+                        rec1(i + 1)
+            try:
+                rec1(0)
+            except _First as f_:
+                return f_.args[0]
+            finally:
+                self.env = saved
+            if len(c.args) == 2:
+                return self.ev(c.args[1])
+            raise Raised("StopIteration")
         args = []
         for a in c.args:
             if isinstance(a, ast.Starred):
@@ -694,8 +724,10 @@ class Folder:
                 return list(args[0])
             if fn == "zip" and args and all(isinstance(a_, (itertools.repeat, itertools.count)) for a_ in args):
                 raise Unknown("zip of endless iterators only")
+            if fn == "map" and len(args) >= 2 and any(isinstance(a_, (itertools.repeat, itertools.count)) for a_ in args[1:]) and callable(args[0]):
+                return map(*args)                # lazily, as in Python: consumed by next(..) / a bounded zip
             if fn in ("list", "tuple", "sorted", "set", "sum", "max", "min", "enumerate", "len", "any", "all", "frozenset", "dict", "reversed", "map", "filter") and \
-                    any(isinstance(a_, (itertools.repeat, itertools.count)) for a_ in args):
+                    any(isinstance(a_, (itertools.repeat, itertools.count, map)) for a_ in args):
                 raise Unknown("an endless iterator is consumed")
             try:
                 v = FUNCS[fn](*args, **kw)
